@@ -244,3 +244,33 @@ func (c C) ErrorDiscipline(fnName string, fn *ssa.Function, calleeGlobs ...strin
 	})
 	return n
 }
+
+// ErrorCensus classifies every error-returning call in the functions defined in the given files
+// (debug aid: `lkcheck -census`).
+func ErrorCensus(p *ir.Program, files map[string]bool) map[string][]string {
+	out := map[string][]string{}
+	for _, f := range p.Funcs {
+		if f.Blocks == nil {
+			continue
+		}
+		pos := p.Pos(f.Pos())
+		file := pos
+		if i := strings.LastIndex(pos, ":"); i > 0 {
+			file = pos[:i]
+		}
+		if !files[file] {
+			continue
+		}
+		for _, b := range f.Blocks {
+			for _, in := range b.Instrs {
+				call, ok := in.(*ssa.Call)
+				if !ok || errorResultIndex(call.Call.Signature()) < 0 {
+					continue
+				}
+				u := classifyErrUse(call)
+				out[u.Class] = append(out[u.Class], p.InstrPos(in)+" "+ir.FuncName(f)+" -> "+ir.CalleeName(call))
+			}
+		}
+	}
+	return out
+}
